@@ -433,6 +433,8 @@ def run(ctx):
     for need in ('same_after_gap', 'order_swap', 'nometa_after_flip', 'same_with_newlist'):
         if not feats.get(need):
             vac.append('no history exercised ' + need)
+    if md['outcomes'].get('skipped-forbidden'):
+        vac.append('%d DAQmx histories are forbidden by the reference model (the family is meant to be well-formed)' % md['outcomes']['skipped-forbidden'])
     if not outcomes.get('equal') or not outcomes.get('raised_as_required'):
         vac.append('accepted and rejected histories were not both observed')
     coverage = {
